@@ -21,7 +21,7 @@ type cpt struct {
 }
 
 func (p *cpt) Compare(c kdtree.Comparable, d kdtree.Dim) float64 { return p.v[d] - c.(*cpt).v[d] }
-func (p *cpt) Dims() int                                        { return len(p.v) }
+func (p *cpt) Dims() int                                         { return len(p.v) }
 func (p *cpt) Distance(c kdtree.Comparable) float64 {
 	if p.ctr != nil {
 		p.ctr.dist++
@@ -50,9 +50,9 @@ type detPoints struct {
 	ch *chooser
 }
 
-func (s detPoints) Index(i int) kdtree.Comparable      { return s.p[i] }
-func (s detPoints) Len() int                           { return len(s.p) }
-func (s detPoints) Slice(a, b int) kdtree.Interface    { return detPoints{s.p[a:b], s.ch} }
+func (s detPoints) Index(i int) kdtree.Comparable   { return s.p[i] }
+func (s detPoints) Len() int                        { return len(s.p) }
+func (s detPoints) Slice(a, b int) kdtree.Interface { return detPoints{s.p[a:b], s.ch} }
 func (s detPoints) Bounds() *kdtree.Bounding {
 	if len(s.p) == 0 {
 		return nil
@@ -542,6 +542,7 @@ type kdRunStats struct {
 	notTight, eqRgt int64
 	maxDepth        int
 	onlyKnown       bool
+	randomShapes    bool // stock builder: tree shapes depend on the global random source
 }
 
 // kdRunHistory bulk-builds bulk, Inserts ins one by one, checking the
@@ -635,7 +636,10 @@ func (st *kdRunStats) report(t *vlib.T, n int) {
 	t.Count("kd_trees_with_pruned_search", st.pruned)
 	t.Count("kd_trees_bounding_not_tight", st.notTight)
 	t.Max("kd_depth", int64(st.maxDepth))
-	o := fmt.Sprintf("n=%d depth=%d", n, st.maxDepth)
+	o := fmt.Sprintf("n=%d", n)
+	if !st.randomShapes {
+		o += fmt.Sprintf(" depth=%d", st.maxDepth) // random builds: keep the outcome classes deterministic
+	}
 	if st.pruned > 0 {
 		o += " pruned"
 	}
@@ -689,7 +693,7 @@ func genKD(d int, stock bool) func(g *vlib.G) {
 						ins := cloneInts(insv)
 						key := fmt.Sprintf("bulk=%s ins=%s", fmtIdx(bulk), fmtIdx(ins))
 						g.Case(key, func(t *vlib.T) {
-							st := &kdRunStats{}
+							st := &kdRunStats{randomShapes: stock}
 							reps, esc := 1, false
 							if stock && len(bulk) >= 2 {
 								reps, esc = attempts(group, key, stockReps)
